@@ -54,6 +54,7 @@ type zz35Q struct {
 	budget  int  // producer calls left
 	calls   int  // producer calls made
 	enabled bool // injection allowed (off during the final drain)
+	quiet   bool // no Observe: the outcome depends on a schedule the native run does not reproduce
 
 	// the client's side of the story
 	peerWant  []int  // 0 none, 1 want-have, 2 want-block (strongest since the last cancel)
@@ -219,12 +220,16 @@ func (q *zz35Q) drainAndCheck() {
 	}
 	verifrt.Assert("C35.T2.queue-drains", q.mq.pendingWorkCount() == 0)
 	verifrt.Assert("C35.T2.idle-has-no-message", !q.mq.HasMessage())
-	verifrt.Observe("messages", q.sent)
+	if !q.quiet {
+		verifrt.Observe("messages", q.sent)
+	}
 	n := 0
 	for i, c := range q.cids {
 		want := q.wanted(i)
 		e, has := q.recv.Get(c)
-		verifrt.Observe("recv_has", has)
+		if !q.quiet {
+			verifrt.Observe("recv_has", has)
+		}
 		if want == 0 {
 			if !q.supportsHave && q.peerWant[i] == 1 {
 				// the client's last word for this CID is a targeted want-have, which a peer without HAVE
